@@ -76,7 +76,7 @@ def aligned_big_table(rng, shift):
 
 def table_texts(res, ctx, rng):
     from pykdebugparser.trace_codes import from_trace_codes_text
-    for _ in range(ctx.pick(400, 60000)):
+    for it in range(ctx.pick(400, 60000)):
         text, model = gen_table_text(rng)
         res.case(text)
         try:
@@ -92,6 +92,31 @@ def table_texts(res, ctx, rng):
             res.violation('c19-reference-self-check', 'generator model and reference parser disagree', {'text': text})
         res.count('table_texts_compared')
         res.count('table_entries_compared', len(model))
+        if it % 7 == 0:
+            # the same text through the file entry point (written byte for byte: with / without a final line terminator)
+            import os
+            import tempfile
+            from pykdebugparser.trace_codes import from_trace_codes_file
+            fd, path = tempfile.mkstemp(prefix='verif-c19-', suffix='.codes')
+            try:
+                with os.fdopen(fd, 'w', newline='', encoding='utf-8') as f:
+                    f.write(text)
+                try:
+                    got_f = dict(from_trace_codes_file(path))
+                except Exception as x:
+                    res.violation(f'c19-file-raises-{core.exc_name(x)}', f'from_trace_codes_file: {x!r} on a table of '
+                                  f'{len(model)} entries', {'text': text})
+                    continue
+            finally:
+                os.unlink(path)
+            res.count('table_files_compared')
+            if not text.endswith(('\n', '\r')):
+                res.count('table_files_without_final_line_terminator')
+            if got_f != model:
+                diff = [(hex(k), got_f.get(k), model.get(k)) for k in set(got_f) | set(model) if got_f.get(k) != model.get(k)][:4]
+                res.violation('c19-file-mapping', f'the same text read through from_trace_codes_file maps differently: {diff} '
+                              f'(text ends with {text[-3:]!r})', {'text': text})
+                continue
     # scale ladder: tables larger than any block a reader may use, with line ends placed exactly on / next to the
     # powers of two from 4 KiB to 256 KiB (all in one table), through the text and the file entry points
     if ctx.shard == 0:
@@ -283,6 +308,30 @@ def dumps(res, ctx, rng):
                           f'restoring them gives {len(c)} (bundled: {len(base_traces)})', dict(case, removed=sorted(removed)))
             continue
         res.count('in_place_edits_checked')
+        # ONE front-end object asked with different tables in turn (default, supplied, default again): each request
+        # uses the table it was given, nothing learned under another table carries over
+        from pykdebugparser.pykdebugparser import PyKdebugParser
+        one = PyKdebugParser()
+        one.color = False
+        bad = False
+        for step, (tbl, want_t) in enumerate(((reduced, trs), (None, base_traces), (odd, trs_odd), (bundled, base_traces),
+                                              (reduced, trs))):
+            try:
+                got_t = [(t.ktraces[0].eventid, str(t)) for t in one.traces(io.BytesIO(data), tbl)]
+            except Exception as x:
+                res.violation(f'c19-one-object-raises-{core.exc_name(x)}', f'{x!r}', dict(case, removed=sorted(removed)))
+                bad = True
+                break
+            if got_t != want_t:
+                res.violation('c19-table-of-an-earlier-request-used', f'one front-end object, request {step + 1} with '
+                              f'{"the default table" if tbl is None else "a supplied table of %d entries" % len(tbl)}: '
+                              f'{len(got_t)} traces, a fresh object gives {len(want_t)} under that table',
+                              dict(case, removed=sorted(removed)))
+                bad = True
+                break
+        if bad:
+            continue
+        res.count('one_object_table_sequences')
         # (c) injective re-assignment of ids (real-fault ids are hard-coded in the page-fault decoder: left alone)
         movable = [i for i in used if i not in REAL_FAULT_IDS]
         free = [i for i in range(0x50000000, 0x50000000 + 4 * len(movable) * 3, 4) if i not in bundled]
@@ -334,6 +383,8 @@ def run(ctx):
     res.require('in_place_edits_checked', 5)
     res.require('tables_with_qualifier_bit_ids_checked', 5)
     res.require('entry_point_comparisons', 10)
+    res.require('one_object_table_sequences', 5)
+    res.require('table_files_without_final_line_terminator', 2)
     res.require('large_aligned_tables_compared', 6)
     res.require('callstacks_seen_under_supplied_tables', 1)
     return res
